@@ -23,6 +23,7 @@ fn main() {
         "sig" => sig::run(),
         "asyncio" => asyncio::run(),
         "execsched" => execsched::run(),
+        "execcb" => execsched::run_cb(),
         "runsched" => runsched::run(),
         "timing" => timing::run(),
         "core" => core::run(&args[2..]),
